@@ -1085,6 +1085,11 @@ static ASMJIT_INLINE Error BaseRAPass_calculateInOutKill(
       block->clear_flags(RABlockFlags::kIsEnqueued);
 
       for (RABlock* predecessor : block->predecessors()) {
+        // Unreachable blocks are not part of POV - they have no liveness information and the queue has no room for them.
+        if (!predecessor->is_reachable()) {
+          continue;
+        }
+
         Support::BitWord changed = BaseRAPass_recalculateInOut<BitMutator>(predecessor, multi_work_reg_count_as_bit_words, block);
         if (Support::bool_and(changed, !predecessor->is_enqueued())) {
           predecessor->add_flags(RABlockFlags::kIsEnqueued);
